@@ -278,14 +278,49 @@ def run(F, R, tier):
                      "new edge field %s.%s: nothing is known to load its target (modules reachable only through it would be absent)" % (adt, f["name"]), a["file"])
     bodies = [F.body("graph::Builder::visit_module"), F.body("graph::Builder::visit_module_dependencies"), F.body("graph::Builder::handle_provided_imports")]
     found = {}
-    for b in bodies:
+    EDGE_NAMES = ("maybe_code", "maybe_type", "maybe_types_dependency", "maybe_source_map_dependency")
+
+    def edge_fields(scr, top_, depth=3):
+        out = [x["field"] for x in walk(scr) if x.get("k") == "Field" and x["field"] in EDGE_NAMES]
+        if out or depth == 0:
+            return out
+        for y in walk(scr):
+            if y.get("k") == "Path" and y.get("res") == "local":
+                for d in local_defs(top_, y["lid"]):
+                    if d[1] is not None:
+                        out += edge_fields(d[1], top_, depth - 1)
+        return out
+
+    def constructs(b):
+        """(pattern, scrutinee, region executed when it matched) for if-let (also as a
+        conjunct of a let-chain), let-else and match arms"""
         for n in b["_nodes"]:
-            pat = scr = then = None
-            if n["k"] == "If" and n["cond"].get("k") == "Let":
-                pat, scr, then = n["cond"]["pat"], n["cond"]["init"], n["then"]
-            if pat is None or "graph::Resolution::Ok" not in pat_text(pat):
+            if n["k"] == "Let":
+                o = n
+                while o.get("_p") is not None and o["_p"].get("k") == "Binary":
+                    o = o["_p"]
+                owner = o.get("_p") or {}
+                if owner.get("k") == "If" and is_within(n, owner["cond"]):
+                    yield n["pat"], n["init"], owner["then"]
+            elif n["k"] == "LetStmt" and "else" in n and "init" in n:
+                blk = n["_p"]
+                if blk.get("k") == "Block":
+                    i = [j for j, st_ in enumerate(blk["stmts"]) if st_ is n]
+                    if i:
+                        rest = {"k": "Block", "id": n["id"] + 0.5, "h": "rest", "ln": n.get("ln"), "stmts": blk["stmts"][i[0] + 1:], "_p": blk, "_top": n["_top"], "_role": "rest"}
+                        if "expr" in blk:
+                            rest["expr"] = blk["expr"]
+                        yield n["pat"], n["init"], rest
+            elif n["k"] == "Match":
+                for arm in n["arms"]:
+                    yield arm["pat"], n["scrut"], arm["body"]
+
+    for b in bodies:
+        for pat, scr, then in constructs(b):
+            n = then
+            if "graph::Resolution::Ok" not in pat_text(pat):
                 continue
-            flds = [x["field"] for x in walk(scr) if x.get("k") == "Field" and x["field"] in ("maybe_code", "maybe_type", "maybe_types_dependency", "maybe_source_map_dependency")]
+            flds = edge_fields(scr, b)
             if not flds:
                 continue
             edge = (b["path"].split("::")[-1], flds[0])
